@@ -17,6 +17,7 @@ func init() { register("C09", checkC09) }
 func genC09(t *rapid.T) *Case {
 	p := carrierProfile()
 	p.CommaURLs = true
+	p.Inline = append(append([]wc{}, p.Inline...), wc{"joined", 2})
 	mode := rapid.IntRange(0, 2).Draw(t, "c09mode")
 	if mode == 0 {
 		// word-count sub-domain: no title, no tables, no figures
@@ -95,6 +96,128 @@ func visibleWordsOfOutput(root *html.Node) []string {
 	return words
 }
 
+// c09BoundaryViolation: the HTML view has one word where the text view has several. Is that word one
+// word of the source as well (markup inside a word), or did the distiller fuse words that are separate
+// in the source?
+func c09BoundaryViolation(c *Case, fused string, i int) *Violation {
+	doc, _ := html.Parse(strings.NewReader(c.HTML))
+	if doc != nil {
+		for _, w := range strictWordsOfSource(doc) {
+			if w == fused {
+				return violationf("C09 text-view-splits-word-with-markup-inside",
+					"%q is one word of the source and of the HTML view (it has inline markup, an empty element or a comment inside), but the text view splits it (word %d): every text node is padded with white space there", fused, i)
+			}
+		}
+	}
+	return violationf("C09 html-view-fuses-words-around-removed-element",
+		"the HTML view has the word %q (word %d) where the source and the text view have separate words: an element between them was removed without leaving white space", fused, i)
+}
+
+var inlineTags = map[string]bool{"a": true, "abbr": true, "b": true, "bdi": true, "bdo": true, "cite": true, "code": true, "data": true, "dfn": true, "em": true,
+	"font": true, "i": true, "kbd": true, "label": true, "mark": true, "q": true, "s": true, "samp": true, "small": true, "span": true, "strong": true,
+	"sub": true, "sup": true, "time": true, "u": true, "var": true, "wbr": true}
+
+// strictWordsOfOutput: words of the visible text of the distilled HTML with inline boundaries not
+// separating words.
+func strictWordsOfOutput(root *html.Node) []string {
+	var b strings.Builder
+	var rec func(n *html.Node)
+	rec = func(n *html.Node) {
+		switch n.Type {
+		case html.TextNode:
+			b.WriteString(n.Data)
+			return
+		case html.ElementNode:
+			if isPlaceholder(n) {
+				b.WriteString(" ")
+				return
+			}
+			if _, hid := attr(n, "hidden"); hid {
+				b.WriteString(" ")
+				return
+			}
+			if !inlineTags[n.Data] {
+				b.WriteString(" ")
+				defer b.WriteString(" ")
+			}
+		case html.CommentNode:
+			return
+		}
+		for c := n.FirstChild; c != nil; c = c.NextSibling {
+			rec(c)
+		}
+	}
+	rec(root)
+	return strings.Fields(punctToSpace(b.String()))
+}
+
+// strictWordsOfSource: the same for the source document (non-rendered and non-reading elements count
+// as word separators).
+func strictWordsOfSource(root *html.Node) []string {
+	var b strings.Builder
+	var rec func(n *html.Node)
+	rec = func(n *html.Node) {
+		switch n.Type {
+		case html.TextNode:
+			b.WriteString(n.Data)
+			return
+		case html.ElementNode:
+			if notRendered(n) || nonReading(n) {
+				b.WriteString(" ")
+				return
+			}
+			if !inlineTags[n.Data] {
+				b.WriteString(" ")
+				defer b.WriteString(" ")
+			}
+		case html.CommentNode:
+			return
+		}
+		for c := n.FirstChild; c != nil; c = c.NextSibling {
+			rec(c)
+		}
+	}
+	rec(root)
+	return strings.Fields(punctToSpace(b.String()))
+}
+
+// multiNodeWordsOfSource: the words of the source (as strictWordsOfSource) that span more than one text
+// node, e.g. "t6qt7q" for t6q<span></span>t7q.
+func multiNodeWordsOfSource(root *html.Node) map[string]bool {
+	const mark = "\uE000"
+	var b strings.Builder
+	var rec func(n *html.Node)
+	rec = func(n *html.Node) {
+		switch n.Type {
+		case html.TextNode:
+			b.WriteString(mark + n.Data + mark)
+			return
+		case html.ElementNode:
+			if notRendered(n) || nonReading(n) {
+				b.WriteString(" ")
+				return
+			}
+			if !inlineTags[n.Data] {
+				b.WriteString(" ")
+				defer b.WriteString(" ")
+			}
+		case html.CommentNode:
+			return
+		}
+		for c := n.FirstChild; c != nil; c = c.NextSibling {
+			rec(c)
+		}
+	}
+	rec(root)
+	res := map[string]bool{}
+	for _, w := range strings.Fields(punctToSpace(b.String())) {
+		if strings.Contains(strings.Trim(w, mark), mark) {
+			res[strings.ReplaceAll(w, mark, "")] = true
+		}
+	}
+	return res
+}
+
 func outputImageURLs(root *html.Node) []string {
 	var urls []string
 	for _, n := range findAll(root, func(x *html.Node) bool { return isElem(x, "img", "source") }) {
@@ -155,6 +278,37 @@ func checkC09(c *Case) (*Violation, caseInfo) {
 		}
 		viol = violationf("C09 text-html-words-differ at="+where,
 			"word sequences differ at word %d: Text has %d words (…%s…), visible text of HTML has %d words (…%s…)", i, len(tw), ctx(tw), len(hw), ctx(hw))
+		// a word of the HTML view that is the concatenation of consecutive words of the text view
+		if i < len(hw) && i < len(tw) && strings.HasPrefix(hw[i], tw[i]) && hw[i] != tw[i] {
+			cat, j := "", i
+			for j < len(tw) && len(cat) < len(hw[i]) {
+				cat += tw[j]
+				j++
+			}
+			if cat == hw[i] {
+				viol = c09BoundaryViolation(c, hw[i], i)
+			}
+		}
+	}
+
+	// (a') the same comparison with the HTML words computed as a browser would: text of adjacent
+	// inline elements runs together, only block boundaries and <br> separate words. The text view
+	// pads every text node and every element with white space, so it splits words that contain
+	// markup ("<i>micro</i>scopes") or that lost a skipped element between them. That is a recorded
+	// finding (see known-findings.json); anything the lenient comparison above rejects is not.
+	if viol == nil {
+		sw := strictWordsOfOutput(res.Node)
+		if strings.Join(tw, " ") != strings.Join(sw, " ") {
+			i := 0
+			for i < len(tw) && i < len(sw) && tw[i] == sw[i] {
+				i++
+			}
+			at := ""
+			if i < len(sw) {
+				at = sw[i]
+			}
+			viol = c09BoundaryViolation(c, at, i)
+		}
 	}
 
 	// (b) ContentImages is an ordered subsequence of the image URLs of the HTML view
@@ -186,6 +340,18 @@ func checkC09(c *Case) (*Violation, caseInfo) {
 		info.Classes = append(info.Classes, "wordcount-checked")
 		if n != res.WordCount && viol == nil {
 			viol = violationf("C09 wordcount-differs", "WordCount=%d but the distilled text has %d words", res.WordCount, n)
+			// WordCount is summed per text node: a word with markup inside that the text view keeps in
+			// one piece is counted once per text node
+			if doc, _ := html.Parse(strings.NewReader(c.HTML)); doc != nil && res.WordCount > n {
+				multi := multiNodeWordsOfSource(doc)
+				for _, w := range strings.Fields(punctToSpace(res.Text)) {
+					if multi[w] {
+						viol = violationf("C09 wordcount-counts-word-with-markup-inside-per-text-node",
+							"WordCount=%d but the distilled text has %d words: %q is one word of the source and of the text view but spans several text nodes, and WordCount counts every text node on its own", res.WordCount, n, w)
+						break
+					}
+				}
+			}
 		}
 	}
 
